@@ -319,6 +319,7 @@ class Ctx:
         self.sub_runs = 0
         self.sub_hits = set()
         self.sub_probes = {}
+        self._base = (dict(sim.probes), sim.seam_calls, len(sim.fired))
 
     def violation(self, rule, fingerprint, message):
         fp = dict(fingerprint)
@@ -345,11 +346,12 @@ class Ctx:
 
     def sub_result(self, extra=None):
         """what a sub-fork reports back to its parent"""
+        p0, c0, f0 = self._base
         d = {
-            "fired": self.sim.fired,
-            "seam_calls": self.sim.seam_calls + self.sub_seam_calls,
+            "fired": self.sim.fired[f0:],
+            "seam_calls": self.sim.seam_calls - c0 + self.sub_seam_calls,
             "hits": sorted(REACH.hits | self.sub_hits),
-            "probes": self.sim.probes,
+            "probes": {k: v - p0.get(k, 0) for k, v in self.sim.probes.items() if v - p0.get(k, 0)},
             "violations": self.violations,
             "digest": self.sim.digest(),
         }
@@ -397,6 +399,11 @@ def assert_repo():
     return os.path.dirname(f)
 
 
+def subst(sc, root):
+    """scenarios are position independent: `$W` stands for the root of the scratch world"""
+    return json.loads(json.dumps(sc).replace("$W", root))
+
+
 def run_request(req):
     """Executed in the forked child.  Returns the result dict (JSON-able)."""
     from .props import get_prop
@@ -423,9 +430,10 @@ def run_request(req):
             if status != "ok":
                 golden = None
             prop.place_faults(sc, rng, golden)
-    sim = enter_world(root, sc, record_events=req.get("events", False))
-    ctx = Ctx(sim, sc, tier, root)
-    prop.execute(sc, ctx)
+    scx = subst(sc, root)
+    sim = enter_world(root, scx, record_events=req.get("events", False))
+    ctx = Ctx(sim, scx, tier, root)
+    prop.execute(scx, ctx)
     fired = [list(x) for x in sim.fired] + [list(x) for x in ctx.sub_fired]
     sig_src = json.dumps(
         [ctx.op_kinds, sorted(set((f[3], f[1], ) for f in fired)), ctx.outcomes, sorted(ctx.notes.items())], sort_keys=True
@@ -464,7 +472,7 @@ def _merge_counts(a, b):
 
 def _golden(prop, sc, root, tier):
     """fault-free execution that only reports which seam calls each op makes"""
-    sc2 = dict(sc)
+    sc2 = subst(sc, root)
     sc2["faults"] = []
     sim = enter_world(root, sc2, record_events=False)
     ctx = Ctx(sim, sc2, tier, root)
